@@ -21,7 +21,9 @@ print(s)")"
 run_demo() { # demo fails if its exit status is non-zero or its output has a Go test FAIL line
   out="/tmp/confirm/$id.demo"; ( cd "$d" && sh -c "$demo" ) >"$out" 2>&1; rc=$?
   cat "$out" >>"$log"; if grep -qE '^(FAIL|--- FAIL|exit status [1-9])' "$out"; then rc=1; fi; rm -f "$out"; return $rc; }
-suite() { ( cd "$wt" && go test -vet=off -count=1 ./... 2>&1 | grep -E '^(ok|FAIL|---)' | sed -E 's/\t[0-9.]+s//; s/\(cached\)//' | sort ) ; }
+# cmd/templ/generatecmd/run (TestGoRun) is timing-sensitive under load: it is taken out of the main listing and run on its own, up to three times
+suite() { ( cd "$wt" && go test -vet=off -count=1 ./... 2>&1 | grep -E '^(ok|FAIL|---)' | grep -vE 'generatecmd/run|TestGoRun|^FAIL$' | sed -E 's/\t[0-9.]+s//; s/\(cached\)//' | sort
+  r=FAIL; for i in 1 2 3; do if go test -vet=off -count=1 ./cmd/templ/generatecmd/run >/dev/null 2>&1; then r=ok; break; fi; done; echo "$r github.com/a-h/templ/cmd/templ/generatecmd/run (own run)" ) ; }
 echo "== demo on unchanged tree" >>"$log"; run_demo; clean_rc=$?
 ( cd "$wt" && git checkout -q -- . && git clean -fdq )
 suite > "/tmp/confirm/$id.base"
